@@ -260,7 +260,8 @@ class Sm9World:
     def H1(self, id_terms, hid_term):
         n = len(id_terms)
         f = uf("SM9_H1_%d" % n, z3.BitVecSort(8 * n + 8), B256)
-        return f(z3.Concat(*(id_terms + [hid_term])))
+        ts = id_terms + [hid_term]
+        return f(z3.Concat(*ts) if len(ts) > 1 else ts[0])
 
     def H2(self, data_terms, w_terms):
         n = len(data_terms) + len(w_terms)
